@@ -348,6 +348,32 @@ func c14EndToEnd(w *h.W, r *h.Rng, batch int) {
 			if batch%3 == 0 && f == 0 {
 				n = cr.Range(4500, 13000) // several ID blocks (4096 IDs each): the range-to-position narrowing crosses block borders
 			}
+			if batch%24 == 7 && si == 0 && f == 0 {
+				// one fraction with a token of more than 64Ki postings (its posting list continues over several LID blocks):
+				// the position narrowing of a range then starts in the first, a middle or the last block of the list
+				sh := gen.MakeShape(cr, "hot-token", cr.Intn(4), fmt.Sprintf("b%ds%dhot", batch, si))
+				moveToRecentPast(cr, sh.Corpus)
+				seenHot := map[model.ID]bool{}
+				for _, d := range all {
+					seenHot[d.ID] = true
+				}
+				for _, d := range sh.Corpus.Docs {
+					for seenHot[d.ID] {
+						d.ID.RID++
+					}
+					seenHot[d.ID] = true
+				}
+				if err := ingest(st, sh.Corpus.Docs, cr, 4); err != nil {
+					lerr = err
+				}
+				st.SealAll()
+				all = append(all, sh.Corpus.Docs...)
+				for k, v := range sh.Corpus.Vocab {
+					vocab[k] = append(vocab[k], v...)
+				}
+				spreads = append(spreads, -1)
+				continue
+			}
 			c := gen.MakeCorpus(cr, gen.CorpusOpt{N: n, Vocab: 4, MIDSpread: spreadMin * 60000 / 3, MaxToks: 2, BaseMID: base, Tag: fmt.Sprintf("b%ds%df%d", batch, si, f)})
 			// clustered in a few minutes with long gaps: the occupancy map has holes
 			for _, d := range c.Docs {
